@@ -8,6 +8,10 @@ import (
 // Usually this is more than enough, as BLAS will handle the rest of the transpose
 func (t *Dense) T(axes ...int) (err error) {
 	var transform AP
+	if len(axes) > 0 {
+		// the axes are kept (transposeWith) and later recycled by UT(): never keep the caller's slice
+		axes = append(BorrowInts(len(axes))[:0], axes...)
+	}
 	if transform, axes, err = t.AP.T(axes...); err != nil {
 		return handleNoOp(err)
 	}
@@ -76,6 +80,10 @@ func (t *Dense) UT() {
 // SafeT is exactly like T(), except it returns a new *Dense. The data is also copied over, unmoved.
 func (t *Dense) SafeT(axes ...int) (retVal *Dense, err error) {
 	var transform AP
+	if len(axes) > 0 {
+		// retVal keeps the axes (transposeWith): never keep the caller's slice
+		axes = append(BorrowInts(len(axes))[:0], axes...)
+	}
 	if transform, axes, err = t.AP.T(axes...); err != nil {
 		if err = handleNoOp(err); err != nil {
 			return
